@@ -9,6 +9,7 @@ import (
 	"bytes"
 	"encoding/json"
 	"fmt"
+	"hash/fnv"
 	"os"
 	"strconv"
 	"strings"
@@ -18,6 +19,18 @@ import (
 )
 
 var faultKinds = []string{"flip0", "flip5", "del", "dup", "insnl", "insA", "trunc"}
+
+// stableShard assigns a case to a shard by what the case IS (direction, offset, kind), not by its position in
+// this job's own enumeration: every shard job records its own reference transcript, and those differ by a few
+// bytes (the scratch path in the final message), so a running index is not the same partition in every shard.
+func stableShard(n int, parts ...any) int {
+	if n <= 1 {
+		return 0
+	}
+	h := fnv.New32a()
+	fmt.Fprint(h, parts...)
+	return int(h.Sum32() % uint32(n))
+}
 
 type c02Params struct {
 	W       wParams `json:"w"`
@@ -252,7 +265,6 @@ func c02Run(j vs.Job) *vs.JobResult {
 		}
 		return true
 	}
-	k := 0
 	deadline := time.Unix(j.Deadline, 0)
 	if !p.Pairs {
 		for _, s := range sites {
@@ -260,12 +272,11 @@ func c02Run(j vs.Job) *vs.JobResult {
 				break
 			}
 			for _, kind := range faultKinds {
-				if k%p.NShards == p.Shard {
+				if stableShard(p.NShards, s.dir, s.off, kind) == p.Shard {
 					if !run([]wFault{{s.dir, s.off, kind}}) {
 						return r
 					}
 				}
-				k++
 			}
 			if j.Deadline > 0 && time.Now().After(deadline) {
 				r.Capped = "deadline"
@@ -275,12 +286,11 @@ func c02Run(j vs.Job) *vs.JobResult {
 		// multi-byte faults: every protocol line of either direction repeated, and lost, as a whole
 		for _, f := range fields {
 			for _, kind := range []string{"dupline", "delline"} {
-				if k%p.NShards == p.Shard {
+				if stableShard(p.NShards, f.dir, f.off, kind) == p.Shard {
 					if !run([]wFault{{f.dir, f.off, kind}}) {
 						return r
 					}
 				}
-				k++
 			}
 		}
 	} else {
@@ -290,12 +300,11 @@ func c02Run(j vs.Job) *vs.JobResult {
 			for b := a + 1; b < len(fields); b++ {
 				for _, ka := range []string{"flip0", "del", "insA"} {
 					for _, kb := range []string{"flip5", "dup", "insnl"} {
-						if k%p.NShards == p.Shard {
+						if stableShard(p.NShards, fields[a].dir, fields[a].off, ka, fields[b].dir, fields[b].off, kb) == p.Shard {
 							if !run([]wFault{{fields[a].dir, fields[a].off + 1, ka}, {fields[b].dir, fields[b].off + 1, kb}}) {
 								return r
 							}
 						}
-						k++
 					}
 				}
 			}
